@@ -123,6 +123,7 @@ def check_roundtrip(case, out):
 def generic_cases(draw, nums=("frac",)):
     c = draw(gen.curves(0, 4, 4, nums=nums, rational=draw(st.integers(0, 4)) < 2))
     c = draw(gen.weight_magnitude(c))
+    c = draw(gen.flat_coordinate(c))
     bk = gen.breaks_of(c["U"])
     inner = bk[1:-1]
     kind = draw(st.sampled_from(["interior", "interior", "interior", "absent", "end", "too-many"]))
